@@ -2201,6 +2201,14 @@ impl DB {
             }
         }
 
+        // The loop above can be left because of an error while the compaction thread is still
+        // processing this very request. Let the background work finish before the request is
+        // withdrawn, otherwise the compaction thread does not find the request it is working on.
+        while db_fields_guard.background_compaction_scheduled {
+            self.background_work_finished_signal
+                .wait(&mut db_fields_guard);
+        }
+
         if db_fields_guard.maybe_manual_compaction.is_some()
             && Arc::ptr_eq(
                 &wrapped_manual_compaction,
